@@ -27,7 +27,7 @@ RULE = ('cases are accepted route configurations (as C01) crossed with two reque
         'PYTHONHASHSEED')
 ASSUMPTIONS = ['one name is never defined by both an application-level and a route-level resource here (C10 covers precedence)',
                'which of several applications is "the application" for an embedded route: the serving (outermost) one']
-REQUIRED_REACH = ['nonunique-type-on-two-levels', 'decoy-routes-passed-over', 'sibling-routes-with-own-middlewares', 'prefix-bindings-injected', 'constructed', 'requests-on-accepted', 'src:default:def', 'src:default:kwdef', 'src:resource:req',
+REQUIRED_REACH = ['same-unique-type-on-several-levels', 'nonunique-type-on-two-levels', 'decoy-routes-passed-over', 'sibling-routes-with-own-middlewares', 'prefix-bindings-injected', 'constructed', 'requests-on-accepted', 'src:default:def', 'src:default:kwdef', 'src:resource:req',
                   'src:resource:kwreq', 'src:provided:req', 'src:provided:kwdef', 'src:request:req', 'src:application:req',
                   'src:dispatch_state:req', 'src:ctx:req', 'src:value:req', 'src:route:req', 'src:next:req']
 HASHSEEDS_Q = [0, 1, 2, 3, 4, 5, 6, 7]
@@ -105,11 +105,49 @@ def run_shard(sh, spec):
         drive(sh, PROPERTY, cfg, 'fixed')
         digests.append(hashlib.sha1('\x00'.join(_captured).encode('utf8')).hexdigest()[:12])
     sh.notes['fixed-digests:%s' % spec['label']] = digests
+    for cfg in same_type_cores():
+        drive(sh, PROPERTY, cfg, 'same-type-core', nontrivial=True)
+        sh.hit('same-unique-type-on-several-levels')
     # part 2: this shard's own configurations
     rng = Rng(spec['seed'], PROPERTY, spec['label'])
     for i in range(spec['n']):
         cfg = gen_di.gen_config(rng, {'deviate': rng.pick([0.0, 0.0, 0.02, 0.05]), 'posonly': False, 'p_nested': 0.3, 'decoys': True})
         drive(sh, PROPERTY, cfg, 'random')
+
+
+def same_type_cores():
+    """Embeddings whose levels carry *different instances of one unique middleware type* offering the same names - and nothing
+    else that would tell the levels apart (no resources, same renderer): the instance of the outermost level is the one
+    that stays, so its functions run and its values arrive."""
+    out = []
+
+    def mw(mid, phases, provides_by_phase):
+        m = {'mid': mid, 'type': 'T', 'unique': True, 'reorderable': True, 'request': None, 'endpoint': None, 'render': None,
+             'provides': [], 'endpoint_provides': [], 'render_provides': []}
+        for ph in phases:
+            m[ph] = {'fid': '%s.%s' % (mid, ph), 'form': 'method', 'params': [['next', 'req']]}
+        for ph, names in provides_by_phase.items():
+            m[{'request': 'provides', 'endpoint': 'endpoint_provides', 'render': 'render_provides'}[ph]] = list(names)
+        return m
+    for nlev in (2, 3):
+        for phase in ('request', 'endpoint', 'render'):
+            for extra_inner in (False, True):
+                for at_route in (False, True):
+                    levels = [{'mws': [mw('m%d' % k, [phase], {phase: ['a']})], 'resources': [], 'prefix': '/p%d' % k} for k in range(nlev)]
+                    route_mws = []
+                    if at_route:
+                        levels[-1]['mws'] = []
+                        route_mws = [mw('mr', [phase], {phase: ['a']})]
+                    if extra_inner:
+                        (route_mws if at_route else levels[-1]['mws']).append(
+                            {'mid': 'mx', 'type': 'X', 'unique': True, 'reorderable': True, 'request': {'fid': 'mx.request', 'form': 'function', 'params': [['next', 'req']]},
+                             'endpoint': None, 'render': None, 'provides': [], 'endpoint_provides': [], 'render_provides': []})
+                    consumer_ep = phase in ('request', 'endpoint')
+                    out.append({'levels': levels, 'beh': {}, 'build_via_add': False,
+                                'route': {'bindings': [], 'mws': route_mws, 'resources': [], 'methods': None,
+                                          'endpoint': {'fid': 'ep', 'form': 'function', 'params': [['a', 'req']] if consumer_ep else []},
+                                          'render': {'fid': 'rn', 'form': 'function', 'params': [['context', 'req']] + ([] if consumer_ep else [['a', 'req']])}}})
+    return out
 
 
 def finalize(m, tier):
